@@ -74,6 +74,7 @@ def cases(draw, tier="quick"):
     P["input_refresh"] = draw(st.booleans())
     P["hs_fail"] = draw(st.sampled_from([[0, 0], [0, 0], [1, 0], [0, 1], [1, 2]]))
     P["hs_slow"] = draw(st.sampled_from([[False, False], [False, False], [True, False], [True, True]]))
+    P["hs_fail_first"] = draw(st.sampled_from([[False, False], [False, False], [False, False], [True, False], [False, True]]))
     n = draw(st.integers(0, 240))
     P["tape"] = draw(st.binary(min_size=n, max_size=n))
     return P
